@@ -665,6 +665,15 @@ class Engine:
                 if name == 'forall':
                     return mk_bool(z3.ForAll(bound, z3.Implies(guard, body)))
                 return mk_bool(z3.Exists(bound, z3.And(guard, body)))
+            if name == 'forall_str':
+                lam = node.args[0]
+                names = [a.arg for a in lam.args.args]
+                bound = [z3.String(fresh_name(n)) for n in names]
+                extra = dict(env.extra)
+                for n, b in zip(names, bound):
+                    extra[n] = mk_str(b)
+                body = self.truthy(self.sev(lam.body, SpecEnv(st, extra, env.old)))
+                return mk_bool(z3.ForAll(bound, body))
             if name == 'forall_ref':
                 # forall_ref('Class', lambda p: body): p ranges over all allocated references
                 cls = node.args[0].value
@@ -689,6 +698,9 @@ class Engine:
                 if snap is None:
                     raise OutOfSubset('at_loop(%d) outside that loop' % node.args[0].value, node)
                 return self.sev(node.args[1], SpecEnv(snap, env.extra, env.old))
+            if name == 'written':
+                # typestate: the named global was assigned on THIS path (since function entry)
+                return mk_bool(node.args[0].value in st.ghost.get('__written__', ()))
             if name == 'is_fresh':
                 # allocated by the call / function whose contract this is (not before it)
                 v = self.sev(node.args[0], env)
@@ -912,6 +924,9 @@ class Engine:
             if line is not None:
                 self.prove(st, z3.Not(opt_is_none(item)), 'noraise', line, 'None-in-str')
             item = opt_val(item)
+        if isinstance(container.t, TDict):
+            it = self.coerce(item, container.t.k)
+            return z3.Not(opt_is_none(Val(TOpt(container.t.v), z3.Select(container.e, it.e))))
         if isinstance(container.t, TStr) and isinstance(item.t, TStr):
             return z3.Contains(container.e, item.e)
         if isinstance(container.t, TObj) and container.t.kind == 'charset':
@@ -945,6 +960,12 @@ class Engine:
             if line is not None:
                 self.prove(st, z3.Not(opt_is_none(base)), 'noraise', line, 'None-subscript')
             base = opt_val(base)
+        if isinstance(base.t, TDict):
+            k = self.coerce(idx, base.t.k)
+            cell = Val(TOpt(base.t.v), z3.Select(base.e, k.e))
+            if line is not None:
+                self.prove(st, z3.Not(opt_is_none(cell)), 'noraise', line, 'KeyError')
+            return opt_val(cell)
         if isinstance(idx.t, TBool):
             idx = self.coerce(idx, INT)
         if isinstance(base.t, TTuple):
